@@ -63,7 +63,10 @@ CHECKS = {
          "footer is overwritten before the new one exists (proved witness) and that rewriting the saved tail restores the file byte for "
          "byte. The harness enumerates every kind of rejection x offending column position x row group x dataset layout on the real "
          "code, checks that it raises, that every pre-existing file is byte-identical and the content re-reads, and records the "
-         "open/mkdir calls (up-front rejections must issue none).",
+         "open/mkdir calls (up-front rejections must issue none). History level: rejected_attempts_invisible - after ANY sequence of attempted "
+         "appends, each completing or failing after any number of data-phase operations, a fresh open reads what it reads after the completed "
+         "ones alone (invariant by induction over the history); on the real code every late rejection is followed by a valid append that must "
+         "give old ++ new.",
          "Trusted: Lean kernel + standard axioms; filesystem semantics as in C19. The enumeration of rejection kinds is the property's list.",
          "Lean 4 proof + exhaustive enumeration of rejection kinds with fs-trace correspondence", "§6 C18"),
  "C06": ("Lean 4 theorems about the row-placement and selection algebra of partial reads: filling a pre-allocated buffer at running offsets "
